@@ -29,6 +29,17 @@ theorem filters_ok :
 theorem facts_ok : Gen.TestGen.mainBody = Expected.TestGen.mainBody ∧ Gen.TestGen.constants = Expected.TestGen.constants :=
   ⟨rfl, rfl⟩
 
+/-- T-gen obligation: `inBothViews` asks `go/build` whether a file is in the package with and without the build tag `goose` and
+keeps it only if both say yes — the meaning of the model's parameter `File.excluded`. -/
+theorem build_view_facts_ok : Gen.TestGen.inBothViewsBody = Expected.TestGen.inBothViewsBody := rfl
+
+/-- A file that build constraints exclude contributes nothing in either mode, whatever it contains (repair 6f8ef23). -/
+theorem excluded_files_contribute_nothing (pre post : List File) (f : File) (hx : f.excluded = true) :
+    testsOf (pre ++ f :: post) = testsOf (pre ++ post) ∧ genCoq (pre ++ f :: post) = genCoq (pre ++ post) ∧
+      genGo (pre ++ f :: post) = genGo (pre ++ post) := by
+  have hs : (!skippedFile f) = false := by simp [skippedFile, hx]
+  refine ⟨?_, ?_, ?_⟩ <;> simp [testsOf, genCoq, genGo, List.filter_append, List.filter_cons, hs]
+
 /-- The language of test-function headers (what both regular expressions accept). -/
 theorem match_iff (line : List Char) (h : Header) :
     matchHeader line = some h ↔
@@ -44,13 +55,13 @@ theorem one_per_function_go (files : List File) :
 
 /-- … and Coq file (grouped per scanned file, each group under a comment naming the file). -/
 theorem one_per_function_coq (files : List File) :
-    genCoq files = coqHeader ++ String.join ((files.filter (fun f => !skipped f.name)).map (fun f =>
+    genCoq files = coqHeader ++ String.join ((files.filter (fun f => !skippedFile f)).map (fun f =>
       s!"(* {f.name} *)\n" ++ String.join ((f.lines.filterMap matchHeader).map coqEntry) ++ "\n")) := rfl
 
 /-- Both generators emit tests for the same functions, in the same order: they share the scanner,
 the matcher and (regenerated fact `filters_ok`) the file filter. -/
 theorem generators_agree (files : List File) :
-    testsOf files = (files.filter (fun f => !skipped f.name)).flatMap (fun f => f.lines.filterMap matchHeader) := rfl
+    testsOf files = (files.filter (fun f => !skippedFile f)).flatMap (fun f => f.lines.filterMap matchHeader) := rfl
 
 /-- Failing tests are marked as expected failures in Coq, and only they. -/
 theorem failing_marked (h : Header) :
